@@ -160,6 +160,7 @@ structure Acc where
   admissible : Bool := true
   refStoppedAt : Option Nat := none
   firstBad : Option Nat := none
+  wfAfterStop : Bool := true   -- exploration only: do the observations stay well-formed after the contract was left
 
 def handle (j : Json) : R (List (String × Json)) := do
   let jobs ← listF asNat j "jobs"
@@ -203,6 +204,8 @@ def handle (j : Json) : R (List (String × Json)) := do
         acc := { acc with rst := some rst', robs := robs' }
     -- after the reference stopped (out-of-contract stream) nothing is required any more
     let active := acc.refStoppedAt.isNone
+    if !active then
+      acc := { acc with wfAfterStop := acc.wfAfterStop && okWf }
     if active then
       let bad := !(okWf && okApi && okIndep && okRes && okObs && okAdm)
       acc := { acc with wf := acc.wf && okWf, api := acc.api && okApi, indep := acc.indep && okIndep,
@@ -220,7 +223,8 @@ def handle (j : Json) : R (List (String × Json)) := do
     ("within_contract", Json.bool (!inHyp || acc.refStoppedAt.isNone)),
     ("first_bad_step", jOpt jNat acc.firstBad)]
   return [("model", Json.arr acc.model), ("oracle", oracle),
-          ("explore", Json.mkObj [("reference_stopped_at", jOpt jNat acc.refStoppedAt)])]
+          ("explore", Json.mkObj [("reference_stopped_at", jOpt jNat acc.refStoppedAt),
+                                  ("well_formed_after_stop", Json.bool acc.wfAfterStop)])]
 
 end Drv.C14
 
